@@ -10,13 +10,15 @@ from harness import project
 LANGNAME = {"A": "English (en)", "B": "French (fr)", "Z": "Zulu (zu)"}
 ABS = {v: k for k, v in LANGNAME.items()}
 ABS["default"] = "default"
-COL = {"label": "label", "hint": "hint", "guidance": "guidance_hint", "cmsg": "constraint_message", "rmsg": "required_message", "image": "image", "audio": "audio"}
+COL = {"label": "label", "hint": "hint", "guidance": "guidance_hint", "cmsg": "constraint_message", "rmsg": "required_message", "noapp": "noAppErrorString", "image": "image", "audio": "audio"}
 QPATH = {"q1": ["q1"], "q2": ["g", "q2"], "g": ["g"], "s1": ["s1"], "s2": ["s2"], "s3": ["s3"]}
 CHOICES = {"L.1": ("L", 0, "l1"), "L.2": ("L", 1, "l2"), "M.1": ("M", 0, "m1")}
 
 
-def cell_text(e, k, L):
+def cell_text(e, k, L, refs=False):
     t = f"{e} {k} {L or 'U'}"
+    if refs and k not in ("image", "audio"):
+        return t + " ${q0}"
     if k == "image":
         return t.replace(" ", "_") + ".png"
     if k == "audio":
@@ -38,8 +40,9 @@ def header(k, L, style):
 
 def build(case, seed=0):
     """case: {dl, cells:[[e,k,L]...]} -> (wb, src, kwargs)"""
-    rnd = random.Random(f"itext:{seed}:{case['dl']}:{sorted(map(tuple, case['cells']))}")
-    cells = {(e, k, L): cell_text(e, k, L) for e, k, L in case["cells"]}
+    refs = bool(case.get("refs"))
+    rnd = random.Random(f"itext:{seed}:{case['dl']}:{refs}:{sorted(map(tuple, case['cells']))}")
+    cells = {(e, k, L): cell_text(e, k, L, refs) for e, k, L in case["cells"]}
     hdrs = {}
     style = {"survey": rnd.choice(["::", "::", " :: ", ":", "media"]), "choices": rnd.choice(["::", "::", " :: ", ":", "media"])}
     for (e, k, L) in sorted(cells):
@@ -47,6 +50,7 @@ def build(case, seed=0):
         if (sheet, k, L) not in hdrs:
             hdrs[(sheet, k, L)] = header(k, L, style[sheet])
     srows = [
+        {"type": "text", "name": "q0", "label": "Q0"} if refs else None,
         {"type": "text", "name": "q1", "constraint": ". != 'x'", "required": "yes"},
         {"type": "begin group", "name": "g"},
         {"type": "text", "name": "q2", "constraint": ". != 'y'", "required": "yes"},
@@ -55,6 +59,9 @@ def build(case, seed=0):
         {"type": "select_multiple L", "name": "s2"},
         {"type": "select_one M", "name": "s3", "appearance": "search('mfile')"},
     ]
+    srows = [r for r in srows if r is not None]
+    if refs:
+        hdrs[("survey", "label", "")] = hdrs.get(("survey", "label", ""), "label")
     byname = {r.get("name"): r for r in srows}
     crows = [{"list_name": "L", "name": "l1"}, {"list_name": "L", "name": "l2"}, {"list_name": "M", "name": "m1"}]
     for (e, k, L), t in cells.items():
@@ -72,10 +79,13 @@ def build(case, seed=0):
               {"name": "choices", "header": ccols, "rows": [[r.get(c) for c in ccols] for r in crows]}]
     kwargs = {}
     if case["dl"]:
-        if rnd.random() < 0.5:
+        mode = rnd.choice(["settings", "argument", "argument_beside_settings_sheet"])
+        if mode == "settings":
             sheets.append({"name": "settings", "header": ["default_language"], "rows": [[LANGNAME[case["dl"]]]]})
         else:
             kwargs["default_language"] = LANGNAME[case["dl"]]
+            if mode == "argument_beside_settings_sheet":
+                sheets.append({"name": "settings", "header": ["form_title"], "rows": [["A title"]]})
     src = {"dl": case["dl"], "cells": [[e, k, L, t] for (e, k, L), t in sorted(cells.items())]}
     return {"sheets": sheets}, src, kwargs
 
@@ -83,8 +93,14 @@ def build(case, seed=0):
 RE_IT = re.compile(r"^jr:itext\('([^']*)'\)$")
 
 
+def _norm(t):
+    """documented whitespace collapsing; a substituted node path is shown as the ${name} it came from"""
+    t = re.sub(r"/data(?:/[\w.\-]+)*/([\w.\-]+)", lambda m: " ${" + m.group(1) + "} ", t)
+    return re.sub(r"\s+", " ", t).strip()
+
+
 def _pieces_text(pieces):
-    return "".join(p[1] if p[0] == "t" else "<" + p[1] + ">" for p in pieces)
+    return _norm("".join(p[1] if p[0] == "t" else " " + p[1] + " " for p in pieces))
 
 
 def observe(xform: str, src) -> dict:
@@ -139,7 +155,7 @@ def observe(xform: str, src) -> dict:
         m = RE_IT.match(v)
         if m:
             return {"e": e, "k": k, "mode": "itext", "vals": form_vals(m.group(1), "long")}
-        return {"e": e, "k": k, "mode": "inline", "vals": [["", v]]}
+        return {"e": e, "k": k, "mode": "inline", "vals": [["", _norm(v)]]}
 
     choice_ids = []
     for e, k in pairs:
@@ -178,6 +194,8 @@ def observe(xform: str, src) -> dict:
             eff.append(attr_msg(e, k, QPATH[e], "jr:constraintMsg"))
         elif k == "rmsg":
             eff.append(attr_msg(e, k, QPATH[e], "jr:requiredMsg"))
+        elif k == "noapp":
+            eff.append(attr_msg(e, k, QPATH[e], "jr:noAppErrorString"))
     for x in eff:
         x.pop("id", None)
     # itextIds carried by choice items are references too
